@@ -290,8 +290,9 @@ func (iter *DBIterator) materialize(src *kv.Entry) bool {
 		if src.Value == nil || src.IsDeletedOrExpired() {
 			return false
 		}
+		// entry.Value aliases storage memory (memtable arena / table block): it must never
+		// become the item's scratch buffer, which ValueCopy appends into.
 		iter.entry.Value = src.Value
-		iter.item.valueBuf = iter.entry.Value
 	}
 	iter.item.e = &iter.entry
 	return true
